@@ -197,6 +197,13 @@ class AppNamespace(object):
         self._app_id = app_id
         self._mailboxes = {}
         self._allow_list = allow_list
+        self._connections = 0 # bound websocket connections
+
+    def connection_bound(self):
+        self._connections += 1
+
+    def connection_lost(self):
+        self._connections -= 1
 
     def log_client_version(self, server_rx, side, client_version):
         if self._blur_usage:
@@ -551,7 +558,7 @@ class AppNamespace(object):
             db.commit()
             if self._usage_db:
                 self._usage_db.commit()
-        in_use = bool(self._mailboxes)
+        in_use = bool(self._mailboxes) or self._connections > 0
         log.msg("  prune complete, modified=%s, in_use=%s" % (modified, in_use))
         return in_use
 
